@@ -224,6 +224,32 @@ let run_window g _obs =
   let line2 = out_strings downs3 ^ " " ^ dump_all s3 euis in
   (line1 ^ "|" ^ line2, s1, s3, eui)
 
+(* one join-request reported by two gateways, the second report inside the first one's receive window: the first handler
+   runs up to its buffer read (it has notified the scheduler and waits for the window), the second runs to its end (its
+   notification is a duplicate), the first finishes - the same forced order as run_window, with the join handlers *)
+let run_joinwindow g _obs =
+  let (s0, euis) = initial_server g in
+  let s1 = s0 in
+  let frame_of tag = match parse_event (g tag) with Rx (rx, an, na) -> (rx, an, na) | _ -> failwith "frame" in
+  let (rx1, an, na) = frame_of "f1" and (rx2, _, _) = frame_of "f2" in
+  let prog_of rx =
+    match decode (mk_slice rx.rx_raw []) with
+    | Ok f when int_of_n f.mtype = 0 -> (f.jr.jr_deveui, join_prog e d s1.s_cfg f rx an na)
+    | _ -> failwith "joinwindow case: not a join-request" in
+  let (eui, p) = prog_of rx1 in
+  let (_, q) = prog_of rx2 in
+  let st = dt_get s1.s_tab eui in
+  let rec before_read st p n = match p with
+    | Do (SGetPhy _, _) -> n
+    | Do (o, k) -> let ((st', r), _) = exec s1.s_apps st o in before_read st' (k r) (n + 1)
+    | Halt _ -> n in
+  let n0 = before_read st p 0 in
+  let sched = List.init n0 (fun _ -> false) @ List.init 40 (fun _ -> true) in
+  let (st', outs) = interleave s1.s_apps sched (nat_of_int 200) st p q [] in
+  let s2 = { s1 with s_tab = dt_put s1.s_tab eui st' } in
+  let downs_only = List.filter (function ODown _ -> true | _ -> false) outs in
+  (out_strings downs_only ^ " " ^ dump_all s2 euis, s1, s2, eui)
+
 (* two devices sharing an address, one confirmed uplink each inside one receive window: the devices' operations
    commute (Proof/CommuteProof.v), so the outcome is that of handling the frames one after the other *)
 let run_window2 g _obs =
